@@ -8,6 +8,9 @@
 //! skew pairs of different lengths, one nearly parallel pair at 1e-3), 3 origins, 12 parallel / zero pairs (6 of them
 //! parallel along directions that are not exactly representable, so that the cross product is rounding noise);
 //! iso3_from_xyo / iso3_from_basis / iso2_from_basis / Iso3::from(&SvdBasis3) / Iso2::from(&SvdBasis2).
+//! Wave 4: rank(tol) with tol exactly on a singular value (hand-set and computed), frames of left- and right-handed basis
+//! triples, iso3_from_xyo with a nearly perpendicular second vector (tolerance 1e-12), from_points on point sets far from
+//! the origin relative to their extent (exact dyadic coordinates, offset / extent 1e5 .. 3e7).
 //! Singular vectors are compared up to sign, and only where the singular values are separated (the SVD does not
 //! determine them otherwise).  All float comparisons: 1e-9 relative (`close`).
 use super::c03::isos3;
@@ -423,13 +426,221 @@ fn frames(r: &mut Report) {
     }
 }
 
+// ------------------------------------------------------------------------------------------------ wave 4 additions
+fn ulp_up(x: f64) -> f64 { if x > 0.0 { f64::from_bits(x.to_bits() + 1) } else if x < 0.0 { -f64::from_bits((-x).to_bits() - 1) } else { f64::from_bits(1) } }
+fn ulp_down(x: f64) -> f64 { -ulp_up(-x) }
+
+/// rank(tol) counts the singular values STRICTLY greater than tol ("tol is the largest value a singular value can
+/// have and still be considered zero"): bases with hand-set singular values, tolerances exactly on a singular value
+/// and one ulp to either side; computed bases queried at their own singular values; coincident points at tol 0.
+fn rank_exact(r: &mut Report) {
+    let pool = [0.0, 5e-324, 1e-12, 0.5, 1.0, ulp_up(1.0), 2.0, 1e300];
+    let mut tols: Vec<f64> = vec![-1.0, -0.0, f64::INFINITY, f64::MAX];
+    for &s in pool.iter() { tols.push(s); tols.push(ulp_up(s)); if s > 0.0 { tols.push(ulp_down(s)); } }
+    let count = |sv: &[f64], tol: f64| sv.iter().filter(|s| **s > tol).count();
+    for (i, &a) in pool.iter().enumerate() { for (j, &b) in pool.iter().enumerate() { for (k, &c) in pool.iter().enumerate() {
+        if !(i >= j && j >= k) { continue; } // non-increasing triples
+        r.case();
+        let b3 = SvdBasis3 { basis: [v3(1.0, 0.0, 0.0), v3(0.0, 1.0, 0.0), v3(0.0, 0.0, 1.0)], sv: [a, b, c], center: p3(0.0, 0.0, 0.0), n: 4 };
+        for &t in tols.iter() {
+            r.check(b3.rank(t) == count(&b3.sv, t), "rank: the number of singular values strictly greater than the tolerance (a singular value equal to the tolerance counts as zero)", || format!("SvdBasis3 with sv = {:?}, rank({:?})", b3.sv, t));
+        }
+        if k == 0 {
+            let b2 = SvdBasis2 { basis: [Vector2::new(1.0, 0.0), Vector2::new(0.0, 1.0)], sv: [a, b], center: Point2::new(0.0, 0.0), n: 3 };
+            for &t in tols.iter() {
+                r.check(b2.rank(t) == count(&b2.sv, t), "rank: the number of singular values strictly greater than the tolerance (a singular value equal to the tolerance counts as zero)", || format!("SvdBasis2 with sv = {:?}, rank({:?})", b2.sv, t));
+            }
+        }
+    } } }
+    // computed decompositions queried exactly at their own singular values
+    for s in sets3().iter() {
+        r.case();
+        let b = SvdBasis3::from_points(&s.pts, s.w.as_deref());
+        for i in 0..3 { for t in [b.sv[i], ulp_up(b.sv[i])] {
+            r.check(b.rank(t) == count(&b.sv, t), "rank: the number of singular values strictly greater than the tolerance (a singular value equal to the tolerance counts as zero)", || format!("SvdBasis3::from_points [{}] sv = {:?}, rank({:?})", s.name, b.sv, t));
+        } }
+        if s.rank == 0 {
+            r.check(b.rank(0.0) == 0, "rank: coincident points have rank 0 at tolerance 0 (all singular values are exactly 0)", || format!("SvdBasis3::from_points [{}] sv = {:?}, rank(0.0) = {}", s.name, b.sv, b.rank(0.0)));
+        }
+    }
+    // dyadic coordinates: n * q and its division by n are exact, so every centred vector is exactly zero
+    for n in [3usize, 4, 7] { for q in [Point2::new(1.0, 2.0), Point2::new(-0.5, 0.25), Point2::new(0.0, 0.0)] {
+        r.case();
+        let b = SvdBasis2::from_points(&vec![q; n], None);
+        r.check(b.rank(0.0) == 0, "rank: coincident points have rank 0 at tolerance 0 (all singular values are exactly 0)", || format!("SvdBasis2::from_points({} x {:?}) sv = {:?}, rank(0.0) = {}", n, (q.x, q.y), b.sv, b.rank(0.0)));
+        let q3 = p3(q.x, q.y, 0.75);
+        let b = SvdBasis3::from_points(&vec![q3; n + 1], None);
+        r.check(b.rank(0.0) == 0, "rank: coincident points have rank 0 at tolerance 0 (all singular values are exactly 0)", || format!("SvdBasis3::from_points({} x {:?}) sv = {:?}, rank(0.0) = {}", n + 1, (q3.x, q3.y, q3.z), b.sv, b.rank(0.0)));
+    } }
+}
+
+/// iso3_from_basis / Iso3::from(&SvdBasis3) on full basis TRIPLES of either handedness (an SVD returns right- and
+/// left-handed triples alike): the frame is a proper rotation, its x axis is basis[0], its y axis is basis[1]
+/// (never basis[2] or a vector derived from it), its z axis is basis[0] x basis[1].
+fn handed_frames(r: &mut Report) {
+    let firsts = [v3(1.0, 0.0, 0.0), v3(0.0, -1.0, 0.0), v3(0.0, 0.0, 1.0), v3(1.0, 1.0, 0.0), v3(1.0, 2.0, 2.0), v3(0.5, -0.25, 2.0), v3(-1.0, 0.0, 1.0), v3(-3.0, 4.0, 12.0)];
+    let seconds = [v3(0.0, 1.0, 0.0), v3(0.0, 0.0, -1.0), v3(1.0, 0.0, 0.0), v3(2.0, -1.0, 0.5), v3(1.0, 1.0, 1.0), v3(-1.0, -1.0, 0.25)];
+    let origins = [p3(0.0, 0.0, 0.0), p3(1.0, 2.0, 3.0), p3(-100.0, 0.5, 0.0)];
+    for a in firsts.iter() { for b in seconds.iter() {
+        if a.cross(b).norm() < 1e-6 { continue; }
+        let x = a.normalize();
+        let y = (b - x * b.dot(&x)).normalize();
+        let z = x.cross(&y);
+        if is_half_turn(&Matrix3::from_columns(&[x, y, z])) { continue; } // has its own clause in frames()
+        for (hname, third) in [("right-handed", z), ("left-handed", -z)] { for o in origins.iter() {
+            r.case();
+            let basis = [x, y, third];
+            let d = || format!("{} orthonormal triple [{:?}, {:?}, {:?}], origin {:?}", hname, x.as_slice(), y.as_slice(), third.as_slice(), (o.x, o.y, o.z));
+            let sb = SvdBasis3 { basis, sv: [3.0, 2.0, 1.0], center: *o, n: 5 };
+            for (fname, f) in [("iso3_from_basis", iso3_from_basis(&basis, o)), ("Iso3::from(&SvdBasis3)", Iso3::from(&sb))] {
+                let dd = || format!("{}: {}", fname, d());
+                let m: Matrix3<f64> = f.rotation.to_rotation_matrix().into_inner();
+                r.check(((m.transpose() * m) - Matrix3::identity()).norm() <= E && close(m.determinant(), 1.0), "frame of a basis triple (either handedness) is a proper rotation", dd);
+                r.check((f * o).coords.norm() <= E * (1.0 + o.coords.norm()), "frame of a basis triple (either handedness) takes the origin point to 0", dd);
+                r.check(cp3(&(f * (o + x)), &p3(1.0, 0.0, 0.0)), "frame of a basis triple (either handedness): the first basis vector goes to x", dd);
+                r.check(cp3(&(f * (o + y)), &p3(0.0, 1.0, 0.0)), "frame of a basis triple (either handedness): the SECOND basis vector goes to y", dd);
+                r.check(cp3(&(f * (o + z)), &p3(0.0, 0.0, 1.0)), "frame of a basis triple (either handedness): basis[0] x basis[1] goes to z", dd);
+            }
+        } }
+    } }
+    // computed bases: whatever handedness the decomposition returns, the frame is proper and keeps the first two axes
+    for s in sets3().iter().filter(|s| s.rank == 3) { for it in isos3().iter().step_by(3) {
+        r.case();
+        let moved: Vec<Point3> = s.pts.iter().map(|p| it.t * p).collect();
+        let b = SvdBasis3::from_points(&moved, s.w.as_deref());
+        let m0 = Matrix3::from_columns(&[b.basis[0], b.basis[1], b.basis[0].cross(&b.basis[1])]);
+        if is_half_turn(&m0) { continue; }
+        let d = || format!("SvdBasis3::from_points [{}] moved by {}: basis {:?} (det {:?})", s.name, it.name, b.basis, Matrix3::from_columns(&b.basis).determinant());
+        let f = Iso3::from(&b);
+        let m: Matrix3<f64> = f.rotation.to_rotation_matrix().into_inner();
+        r.check(((m.transpose() * m) - Matrix3::identity()).norm() <= E && close(m.determinant(), 1.0), "frame of a basis triple (either handedness) is a proper rotation", d);
+        r.check(cp3(&(f * (b.center + b.basis[0])), &p3(1.0, 0.0, 0.0)), "frame of a basis triple (either handedness): the first basis vector goes to x", d);
+        r.check(cp3(&(f * (b.center + b.basis[1])), &p3(0.0, 1.0, 0.0)), "frame of a basis triple (either handedness): the SECOND basis vector goes to y", d);
+    } }
+}
+
+/// iso3_from_xyo with a second vector that is nearly but not exactly perpendicular to the first
+/// (0 < |x . y| < 1e-3): the result is orthonormal to 1e-12 (not merely to the size of x . y) and x goes exactly to x.
+fn near_perpendicular_xyo(r: &mut Report) {
+    const T: f64 = 1e-12;
+    let firsts = [v3(1.0, 0.0, 0.0), v3(0.0, 1.0, 0.0), v3(0.0, 0.0, -1.0), v3(1.0, 1.0, 0.0), v3(1.0, 2.0, 2.0), v3(0.5, -0.25, 2.0), v3(-1.0, 0.0, 1.0), v3(-3.0, 4.0, 12.0)];
+    let helpers = [v3(0.0, 1.0, 0.0), v3(0.0, 0.0, 1.0), v3(1.0, 0.0, 0.0), v3(2.0, -1.0, 0.5), v3(1.0, 1.0, 1.0)];
+    let tilts = [9e-4, 5e-4, 1e-4, 1e-5, 1e-6, 1e-7, 1e-8, 1e-9, 1e-10, 1e-11];
+    let origins = [p3(0.0, 0.0, 0.0), p3(1.0, 2.0, 3.0)];
+    for a in firsts.iter() { for h in helpers.iter() {
+        if a.cross(h).norm() < 1e-6 { continue; }
+        let xv = a.normalize();
+        let perp = (h - xv * h.dot(&xv)).normalize();
+        for &t in tilts.iter() { for sg in [1.0, -1.0] { for o in origins.iter() {
+            let x = UnitVec3::new_normalize(xv);
+            let y = UnitVec3::new_normalize(perp + xv * (sg * t));
+            let along = x.dot(&y);
+            if !(along.abs() > 0.0 && along.abs() < 1e-3) { continue; }
+            if is_half_turn(&Matrix3::from_columns(&[xv, perp, xv.cross(&perp)])) { continue; }
+            r.case();
+            let d = || format!("iso3_from_xyo(x = {:?}, y = {:?} (x . y = {:e}), origin {:?})", x.as_slice(), y.as_slice(), along, (o.x, o.y, o.z));
+            let f = iso3_from_xyo(&x, &y, o);
+            let m: Matrix3<f64> = f.rotation.to_rotation_matrix().into_inner();
+            r.check(((m.transpose() * m) - Matrix3::identity()).norm() <= T && (m.determinant() - 1.0).abs() <= T, "iso3_from_xyo, y nearly perpendicular to x (0 < |x . y| < 1e-3): proper rotation, orthonormal to 1e-12", d);
+            let fx = f * x.into_inner();
+            r.check((fx - v3(1.0, 0.0, 0.0)).norm() <= T, "iso3_from_xyo, y nearly perpendicular to x: the x direction goes exactly to x (1e-12)", d);
+            let fy = f * y.into_inner();
+            r.check(fy.y > 0.0 && fy.z.abs() <= T && (fy.x - along).abs() <= T, "iso3_from_xyo, y nearly perpendicular to x: the y argument goes into the upper xy half-plane keeping its component along x (1e-12)", d);
+            r.check((f * o).coords.norm() <= T * (1.0 + o.coords.norm()), "iso3_from_xyo, y nearly perpendicular to x: the origin point goes to 0", d);
+        } } }
+    } }
+}
+
+/// point sets FAR from the origin relative to their own extent (offset / extent from 1e5 to 3e7): translating the
+/// set must not change the singular values (relative 1e-9), the axes (up to sign) or the centre relative to the set.
+/// All coordinates are dyadic and all offsets integers below 2^26, point counts and weight totals are powers of two:
+/// the translated points, their mean and the centred vectors are exact in f64, so a decomposition of the centred
+/// points sees bit-identical input.
+fn far_sets(r: &mut Report) {
+    const G: f64 = 1.0 / 1048576.0; // 2^-20
+    let corners = |e1: Vector3, e2: Vector3, e3: Vector3, base: Point3| -> Vec<Point3> {
+        let mut v = vec![];
+        for a in [0.0, 1.0] { for b in [0.0, 1.0] { for c in [0.0, 1.0] { v.push(base + e1 * a + e2 * b + e3 * c); } } }
+        v
+    };
+    // slabs 6 x 3 x 0.125 (axis-aligned; skew edges; thin direction first), and a 16-point set with interior points
+    let mut slab16 = corners(v3(6.0, 0.0, 0.0), v3(0.0, 3.0, 0.0), v3(0.0, 0.0, 0.125), p3(-3.0, -1.5, 0.0));
+    slab16.extend(corners(v3(2.0, 0.5, 0.0), v3(-0.5, 1.0, 0.0), v3(0.0, 0.0, 0.0625), p3(0.25, -0.75, 0.03125)));
+    let sets: Vec<(&str, Vec<Point3>)> = vec![
+        ("slab 6 x 3 x 0.125, axis-aligned", corners(v3(6.0, 0.0, 0.0), v3(0.0, 3.0, 0.0), v3(0.0, 0.0, 0.125), p3(-3.0, -1.5, 0.0))),
+        ("slab 0.125 x 3 x 6 (thin direction first)", corners(v3(0.125, 0.0, 0.0), v3(0.0, 3.0, 0.0), v3(0.0, 0.0, 6.0), p3(0.0, 1.0, -2.0))),
+        ("skew slab, edges (4,2,0) (-1.5,3,0.5) (0.0625,-0.03125,0.125)", corners(v3(4.0, 2.0, 0.0), v3(-1.5, 3.0, 0.5), v3(0.0625, -0.03125, 0.125), p3(1.0, 0.0, -1.0))),
+        ("16 points in a 6 x 3 x 0.125 slab", slab16),
+        // coordinates on a 2^-20 grid: still exact after the translation (46 bits), but products of two coordinates are not
+        ("slab 6 x 3 x 0.125 on a 2^-20 grid", corners(v3(6.0 - 2.0 * G, G, 0.0), v3(-3.0 * G, 3.0 + G, 5.0 * G), v3(7.0 * G, -G, 0.125 + 3.0 * G), p3(-3.0 + G, -1.5 + 3.0 * G, 5.0 * G))),
+        ("small skew slab 2 x 1 x 0.0625 on a 2^-20 grid", corners(v3(2.0 - G, 3.0 * G, 0.0), v3(-0.25, 1.0 + G, 5.0 * G), v3(G, -G, 0.0625), p3(-1.0 + 3.0 * G, -0.5, G))),
+        ("skew slab on a 2^-20 grid", corners(v3(4.0 + G, 2.0 - 3.0 * G, 0.0), v3(-1.5 + 5.0 * G, 3.0, 0.5 + G), v3(0.0625, -0.03125 + G, 0.125 - G), p3(1.0 + 7.0 * G, 0.0, -1.0 - G))),
+    ];
+    let w8 = [1.0, 2.0, 1.0, 4.0, 2.0, 2.0, 1.0, 3.0];
+    let offsets = [v3(600000.0, 0.0, 0.0), v3(0.0, -1048576.0, 524288.0), v3(2e6, -3e6, 1e6), v3(4e7, 1e7, -2e7), v3(-33554432.0, 33554432.0, 16777216.0), v3(0.0, 0.0, 6e7)];
+    for (name, pts) in sets.iter() { for weighted in [false, true] {
+        let wv: Vec<f64> = (0..pts.len()).map(|i| w8[i % 8]).collect();
+        let w: Option<&[f64]> = if weighted { Some(&wv) } else { None };
+        let b = SvdBasis3::from_points(pts, w);
+        for off in offsets.iter() {
+            r.case();
+            let moved: Vec<Point3> = pts.iter().map(|p| p + off).collect();
+            let d = || format!("SvdBasis3::from_points([{}] translated by {:?}, {})", name, off.as_slice(), if weighted { "weights 1,2,1,4,2,2,1,3 repeating" } else { "no weights" });
+            if !pts.iter().zip(moved.iter()).all(|(p, q)| (q - off - p.coords).coords.norm() == 0.0) { r.check(false, "far point sets: the translated test points are exact (oracle self-check)", d); continue; }
+            let bm = SvdBasis3::from_points(&moved, w);
+            basis_checks3(r, &bm, &d);
+            r.check(((bm.center - off) - b.center).norm() <= 1e-9 * (1.0 + b.sv[0]), "principal axes far from the origin: the centre moves with the translation (relative to the extent of the set)", || format!("{}: centre {:?} vs {:?} + offset", d(), bm.center.coords.as_slice(), b.center.coords.as_slice()));
+            for i in 0..3 {
+                r.check((bm.sv[i] - b.sv[i]).abs() <= 1e-9 * b.sv[i], "principal axes far from the origin (offset / extent 1e5 .. 3e7): singular values are invariant under translation to relative 1e-9", || format!("{}: sv {:?} vs {:?} at the origin", d(), bm.sv, b.sv));
+                if sv_separated(&b.sv, i) { r.check(same_up_to_sign3(&bm.basis[i], &b.basis[i]), "principal axes far from the origin (offset / extent 1e5 .. 3e7): the axes are unchanged (up to sign) by a translation", || format!("{} axis {}: {:?} vs {:?}", d(), i, bm.basis[i].as_slice(), b.basis[i].as_slice())); }
+                let c = bm.center;
+                let along: f64 = moved.iter().enumerate().map(|(k, p)| { let wk = w.map_or(1.0, |w| w[k]); (wk * bm.basis[i].dot(&(p - c))).powi(2) }).sum::<f64>() / moved.len() as f64;
+                r.check((bm.sv[i].powi(2) / moved.len() as f64 - along).abs() <= E * (1e-6 + along), "principal axes far from the origin: sv^2 / n equals the variance of the (weighted) centred points along each axis", || format!("{} axis {}", d(), i));
+            }
+            r.check(bm.rank(1e-9 * (1.0 + bm.sv[0])) == 3, "principal axes far from the origin: the rank reflects the dimension of the point set", d);
+        }
+    } }
+    // 2D: rectangles 6 x 0.125 (axis-aligned and skew), 4 and 8 points
+    let rect = |e1: Vector2, e2: Vector2, base: Point2| -> Vec<Point2> { let mut v = vec![]; for a in [0.0, 1.0] { for b in [0.0, 1.0] { v.push(base + e1 * a + e2 * b); } } v };
+    let mut r8 = rect(Vector2::new(6.0, 0.0), Vector2::new(0.0, 0.125), Point2::new(-3.0, 0.0));
+    r8.extend(rect(Vector2::new(2.0, 0.0625), Vector2::new(-0.5, 0.03125), Point2::new(0.25, 0.03125)));
+    let sets2: Vec<(&str, Vec<Point2>)> = vec![
+        ("rectangle 6 x 0.125", rect(Vector2::new(6.0, 0.0), Vector2::new(0.0, 0.125), Point2::new(-3.0, 0.0))),
+        ("skew rectangle, edges (4,2) (-0.0625,0.125)", rect(Vector2::new(4.0, 2.0), Vector2::new(-0.0625, 0.125), Point2::new(1.0, -1.0))),
+        ("8 points in a 6 x 0.125 strip", r8),
+        ("rectangle 6 x 0.125 on a 2^-20 grid", rect(Vector2::new(6.0 - 2.0 * G, 3.0 * G), Vector2::new(-G, 0.125 + 5.0 * G), Point2::new(-3.0 + G, 7.0 * G))),
+    ];
+    let offsets2 = [Vector2::new(600000.0, 0.0), Vector2::new(2e6, -3e6), Vector2::new(4e7, 1e7), Vector2::new(-33554432.0, 16777216.0)];
+    for (name, pts) in sets2.iter() { for weighted in [false, true] {
+        let wv: Vec<f64> = (0..pts.len()).map(|i| [1.0, 2.0, 1.0, 4.0][i % 4]).collect();
+        let w: Option<&[f64]> = if weighted { Some(&wv) } else { None };
+        let b = SvdBasis2::from_points(pts, w);
+        for off in offsets2.iter() {
+            r.case();
+            let moved: Vec<Point2> = pts.iter().map(|p| p + off).collect();
+            let d = || format!("SvdBasis2::from_points([{}] translated by {:?}, {})", name, off.as_slice(), if weighted { "weights 1,2,1,4 repeating" } else { "no weights" });
+            let bm = SvdBasis2::from_points(&moved, w);
+            r.check((bm.basis[0].dot(&bm.basis[0]) - 1.0).abs() <= E && (bm.basis[1].dot(&bm.basis[1]) - 1.0).abs() <= E && bm.basis[0].dot(&bm.basis[1]).abs() <= E, "principal axes 2D: the basis vectors are orthonormal", d);
+            r.check(((bm.center - off) - b.center).norm() <= 1e-9 * (1.0 + b.sv[0]), "principal axes far from the origin: the centre moves with the translation (relative to the extent of the set)", d);
+            for i in 0..2 {
+                r.check((bm.sv[i] - b.sv[i]).abs() <= 1e-9 * b.sv[i], "principal axes far from the origin (offset / extent 1e5 .. 3e7): singular values are invariant under translation to relative 1e-9", || format!("{}: sv {:?} vs {:?} at the origin", d(), bm.sv, b.sv));
+                if sv_separated(&b.sv, i) { r.check(same_up_to_sign2(&bm.basis[i], &b.basis[i]), "principal axes far from the origin (offset / extent 1e5 .. 3e7): the axes are unchanged (up to sign) by a translation", || format!("{} axis {}", d(), i)); }
+            }
+        }
+    } }
+}
+
 pub fn run() -> Option<Report> {
-    let mut r = Report::new("planes: 6 non-collinear point triples, 4 (normal, point) pairs / surface points, 4 queries, and 7 tilted triangle shapes scaled to edge lengths 1e-3 and 1e-4 at 4 anchor points (containment within 1e-9 of the edge); principal axes: box clouds of n in {2047, 2048, 2049, 4096} LCG points with extents 1:5:20 (unweighted and with weights 1,2,0.5,4 repeating; every 5th / 15th isometry of the family); 8 point sets in 3D (generic, skew, planar, collinear, coincident; weights from {0.5..4}) and 4 in 2D, weight scale factors {2, 0.5, 8, 1e-6, 1e-18, 1e18}, 76 (3D) / 24 (2D) isometries (quarter turns, 30/45 degrees, general axis, translations up to 1000); singular vectors compared up to sign and only where singular values are separated by > 1e-3 of the largest; frame constructors: six try_from_basis_* x 10 first x 11 second arguments (all signed axis pairs, skew, unequal lengths, one nearly parallel pair at 1e-3) x 3 origins, 12 parallel / zero pairs each (6 of them parallel along directions that are not exactly representable); iso3_from_xyo / iso3_from_basis / iso2_from_basis / Iso3::from(&SvdBasis3); all comparisons to 1e-9");
+    let mut r = Report::new("planes: 6 non-collinear point triples, 4 (normal, point) pairs / surface points, 4 queries, and 7 tilted triangle shapes scaled to edge lengths 1e-3 and 1e-4 at 4 anchor points (containment within 1e-9 of the edge); principal axes: box clouds of n in {2047, 2048, 2049, 4096} LCG points with extents 1:5:20 (unweighted and with weights 1,2,0.5,4 repeating; every 5th / 15th isometry of the family); 8 point sets in 3D (generic, skew, planar, collinear, coincident; weights from {0.5..4}) and 4 in 2D, weight scale factors {2, 0.5, 8, 1e-6, 1e-18, 1e18}, 76 (3D) / 24 (2D) isometries (quarter turns, 30/45 degrees, general axis, translations up to 1000); singular vectors compared up to sign and only where singular values are separated by > 1e-3 of the largest; frame constructors: six try_from_basis_* x 10 first x 11 second arguments (all signed axis pairs, skew, unequal lengths, one nearly parallel pair at 1e-3) x 3 origins, 12 parallel / zero pairs each (6 of them parallel along directions that are not exactly representable); iso3_from_xyo / iso3_from_basis / iso2_from_basis / Iso3::from(&SvdBasis3); all comparisons to 1e-9; wave 4: rank(tol) on hand-set singular values over {0, 5e-324, 1e-12, 0.5, 1, 1+2^-52, 2, 1e300} with tol exactly on a value and one ulp to either side, coincident dyadic points at tol 0; iso3_from_basis / Iso3::from(&SvdBasis3) on right- and left-handed orthonormal triples from 8 x 6 vector pairs x 3 origins; iso3_from_xyo with y tilted towards +-x by 1e-11 .. 9e-4 (0 < |x.y| < 1e-3) for 8 x 5 direction pairs, tolerance 1e-12; from_points on 7 slabs (3D) / 4 rectangles (2D) with exact dyadic coordinates translated by integer offsets with offset / extent 1e5 .. 3e7 (|offset| <= 6e7), weighted and not, singular values to relative 1e-9");
     planes(&mut r);
     small_planes(&mut r);
     svd3(&mut r);
     svd_large(&mut r);
     svd2(&mut r);
     frames(&mut r);
+    rank_exact(&mut r);
+    handed_frames(&mut r);
+    near_perpendicular_xyo(&mut r);
+    far_sets(&mut r);
     Some(r)
 }
